@@ -286,12 +286,72 @@ class Gen:
             if r.random() < 0.85 else 'create table int1.t9 (a int, b text)'
 
 
+# ------------------------------------------------------------------ identifier case variation
+
+import re as _re
+
+IDENT_CLASSES = {
+    'cte': _re.compile(r'cte\d+$|c\d?$', _re.I),
+    'alias': _re.compile(r'a\d+$|b\d$|t[ab]$|s$|df$|sq$|mx$|p\d?$', _re.I),
+    'integration': _re.compile(r'int\d$|proj$|files$|views$|mindsdb$', _re.I),
+    'table': _re.compile(r'tab\d+$|t9$|f1$|v1$|sch$|raw$', _re.I),
+    'model': _re.compile(r'm\d$|ts\d$|fn$', _re.I),
+    'column': _re.compile(r'id$|[xyztg]$|order_id$', _re.I),
+}
+_TOK = _re.compile(r"'[^']*'|`[^`]*`|[A-Za-z_][A-Za-z_0-9]*|.", _re.S)
+_KEYWORDS = {'as', 'select', 'from', 'where', 'join', 'on', 'and', 'or', 'not', 'in', 'is', 'null', 'with', 'using',
+             'union', 'all', 'intersect', 'except', 'limit', 'offset', 'group', 'by', 'order', 'having', 'desc', 'left',
+             'right', 'inner', 'full', 'cross', 'insert', 'into', 'update', 'set', 'delete', 'create', 'table', 'replace',
+             'values', 'case', 'when', 'then', 'else', 'end', 'between', 'like', 'latest', 'distinct', 'exists', 'max',
+             'min', 'count', 'sum', 'lower', 'int', 'text', 'llm', 'partition_size'}
+
+
+def _spell(word, rng):
+    k = rng.random()
+    if k < 0.3:
+        return word.upper()
+    if k < 0.6:
+        return word[0].upper() + word[1:].lower()
+    if k < 0.8:
+        return ''.join(c.upper() if i % 2 else c.lower() for i, c in enumerate(word))
+    return word.lower()
+
+
+def recase(sql, rng, classes, consistent=True):
+    """re-spell the identifiers of the given classes in mixed case: `consistent` = one spelling per identifier
+    (all occurrences alike — the same query for a case-insensitive reader), else every occurrence on its own"""
+    memo = {}
+    out = []
+    for m in _TOK.finditer(sql):
+        t = m.group(0)
+        if t[0].isalpha() or t[0] == '_':
+            low = t.lower()
+            if low not in _KEYWORDS:
+                cls = next((c for c in classes if IDENT_CLASSES[c].match(t)), None)
+                if cls is not None:
+                    if consistent:
+                        if low not in memo:
+                            memo[low] = _spell(t, rng)
+                        t = memo[low]
+                    else:
+                        t = _spell(t, rng)
+        out.append(t)
+    return ''.join(out)
+
+
 def probe_stream(rng, n):
     g = Gen(rng)
     cats = probe_catalogs()
     names = sorted(cats)
+    all_classes = sorted(IDENT_CLASSES)
     for _ in range(n):
-        yield g.statement(), rng.choice(names)
+        sql, cat = g.statement(), rng.choice(names)
+        k = rng.random()
+        if k < 0.35:
+            # identifier case variation: CTE names, aliases, integration / table / model / column names
+            classes = [c for c in all_classes if rng.random() < 0.5] or [rng.choice(all_classes)]
+            sql = recase(sql, rng, classes, consistent=rng.random() < 0.7)
+        yield sql, cat
 
 
 FIXED = [
@@ -537,7 +597,22 @@ def _sel(r, depth, has_ns):
     return c['sql'], c['term']
 
 
+CORR_RECASE = ['cte', 'alias', 'integration', 'table', 'model', 'column']
+
+
 def corr_case(rng, standalone=None):
+    """one correspondence case: dict(sql, cat, line, shape); `line` is the input of Driver/Plan.lean.
+    In a third of the cases the identifiers are re-spelled in mixed case, every identifier consistently: the
+    expected skeleton is the same (names are matched case-insensitively or, for CTE names, as written)"""
+    c = _corr_case(rng)
+    if isinstance(c, dict) and rng.random() < 0.35:
+        classes = [k for k in CORR_RECASE if rng.random() < 0.6] or [rng.choice(CORR_RECASE)]
+        c['sql'] = recase(c['sql'], rng, classes, consistent=True)
+        c['shape'] = c['shape'] + ':recased'
+    return c
+
+
+def _corr_case(rng, standalone=None):
     """one correspondence case: dict(sql, cat, line, shape); `line` is the input of Driver/Plan.lean"""
     r = rng
     k = r.random()
@@ -581,3 +656,26 @@ def corr_case(rng, standalone=None):
                     line='0 (cta %s)' % term, shape='cta')
     return dict(sql='update int1.t9 set a = df.x from (%s) as df where t9.id = df.id' % sql, cat=catname,
                 line='0 (upd %s)' % term, shape='upd')
+
+
+# ------------------------------------------------------------------ CTE dictionary (plan_cte / get_integration_select_step)
+
+CTE_WORDS = ['recent', 'ab', 'c1', 'totals', 'tab1', 'x9']
+
+
+def cte_case(rng):
+    """definitions (1..3 CTE names in arbitrary case, possibly the same word twice in different spellings) and a
+    bare table name that is one of them as written, one of them in another spelling, or unrelated"""
+    n = rng.choice([1, 2, 2, 3])
+    defs = [_spell(rng.choice(CTE_WORDS), rng) for _ in range(n)]
+    k = rng.random()
+    if k < 0.45:
+        ref = rng.choice(defs)
+    elif k < 0.85:
+        ref = _spell(rng.choice(defs), rng)
+    else:
+        ref = _spell(rng.choice(CTE_WORDS), rng)
+    bodies = ['select * from %s' % rng.choice(['int1.tab1', 'int2.tab3', 'int1.tab2']) for _ in defs]
+    sql = 'with ' + ', '.join('%s as (%s)' % (d, b) for d, b in zip(defs, bodies)) + \
+        ' select * from %s join int2.tab4 b on b.id = %s.id' % (ref, ref)
+    return dict(defs=defs, ref=ref, sql=sql, cat='dicts+list+ns', line='(defs %s) %s' % (' '.join(defs), ref))
